@@ -74,7 +74,7 @@ def parse_unit(path):
                 continue
             if block is not None and block[0] == "raw" and not d.split()[0] in (
                     "unit", "prelude", "specs", "from", "take", "stub", "contract", "loop", "hint", "replace", "raw",
-                    "obligation", "canary", "derive_eq", "include", "desugar_enumerate", "mut_self"):
+                    "obligation", "canary", "derive_eq", "include", "desugar_enumerate", "mut_self", "block", "replace_macro"):
                 continue
             block = None
             cur_label = None
@@ -128,6 +128,11 @@ def parse_unit(path):
                 if not m:
                     raise BuildError("%s:%d bad replace directive" % (path, ln))
                 u.replaces.append(dict(fn=m.group(1), rule=m.group(2), old=m.group(3), new=m.group(4), line=ln))
+            elif w[0] == "replace_macro":
+                m = re.match(r"replace_macro\s+(\S+)\s+(\S+)\s+(\S+)\s+=>\s+`(.*)`\s*$", d)
+                if not m:
+                    raise BuildError("%s:%d bad replace_macro directive" % (path, ln))
+                u.macro_replaces = getattr(u, "macro_replaces", []) + [dict(fn=m.group(1), rule=m.group(2), macro=m.group(3), new=m.group(4))]
             elif w[0] == "raw":
                 r = dict(lines=[], line=ln)
                 u.raws.append(r)
@@ -140,6 +145,11 @@ def parse_unit(path):
             elif w[0] == "canary":
                 u.canary = w[1]
                 u.canaries = getattr(u, "canaries", []) + w[1:]
+            elif w[0] == "block":
+                blk = dict(file=cur_file, fn=w[1], name=w[2], lines=[], line=ln)
+                u.blocks = getattr(u, "blocks", []) + [blk]
+                u.takes.append(dict(file=cur_file, kind="block", name=w[2], methods=None, stub=False, line=ln, block=blk))
+                block = ("blockdef", blk, None)
             elif w[0] == "desugar_enumerate":
                 u.desugar = getattr(u, "desugar", []) + [(w[1], int(w[2]))]
             elif w[0] == "mut_self":
@@ -505,6 +515,22 @@ def _find_tail_continue(toks, bo, bc):
             return _find_tail_continue(toks, ib[0], ib[1])
     return None
 
+
+def _replace_macro(text, macro, new, rule, rules):
+    """Rewrite EVERY invocation `macro!( ... )` (balanced) to `new`, however many there are and whatever the arguments
+    (so that editing a message, or removing a statement that contains one, does not lose an anchor)."""
+    toks = rsx.tokenize(text)
+    edits = []
+    for k in range(len(toks) - 2):
+        if toks[k][0] == "id" and toks[k][1] == macro and toks[k + 1][1] == "!" and toks[k + 2][1] in ("(", "[", "{"):
+            cl = rsx.match_close(toks, k + 2)
+            edits.append((toks[k][2], toks[cl][3]))
+    for a, b in sorted(edits, reverse=True):
+        text = text[:a] + new + text[b:]
+    if edits:
+        rules.append("%s every `%s!(..)` -> `%s` (%d)" % (rule, macro, new, len(edits)))
+    return text
+
 class Emitter:
     def __init__(self):
         self.lines = []
@@ -534,6 +560,40 @@ def extract_items(u, repo, report):
             toks, items = rsx.find_items(src)
             cache[path] = (src, toks, items)
         src, toks, items = cache[path]
+        if tk["kind"] == "block":
+            # R6: the statement block between two code anchors inside a function, wrapped into a function whose
+            # parameters are the block's free variables (signature and tail expression given by the unit)
+            blk = tk["block"]
+            spec = {}
+            for (_lab, l) in blk["lines"]:
+                m_ = re.match(r"\s*(from|to|sig|tail):\s*(.*)$", l)
+                if m_:
+                    spec[m_.group(1)] = m_.group(2).strip().strip("`")
+            for need in ("from", "to", "sig", "tail"):
+                if need not in spec:
+                    raise BuildError("block %s: missing `%s:`" % (blk["name"], need))
+            fc = [it for it in items if it[0] == "fn" and it[1] == blk["fn"] and not it[5]]
+            if len(fc) != 1:
+                raise BuildError("anchor lost: fn %s for block %s: %d candidates" % (blk["fn"], blk["name"], len(fc)))
+            fa, fb = toks[fc[0][2]][2], toks[fc[0][3]][3]
+            ftext = src[fa:fb]
+            if ftext.count(spec["from"]) != 1 or ftext.count(spec["to"]) != 1:
+                raise BuildError("anchor lost: block %s anchors occur %d / %d times in %s" % (
+                    blk["name"], ftext.count(spec["from"]), ftext.count(spec["to"]), blk["fn"]))
+            p0 = ftext.index(spec["from"]); p1 = ftext.index(spec["to"])
+            if p1 < p0:
+                raise BuildError("anchor lost: block %s end anchor before start anchor" % blk["name"])
+            b0 = ftext.rfind("\n", 0, p0) + 1
+            b1 = ftext.find("\n", p1 + len(spec["to"]))
+            b1 = len(ftext) if b1 < 0 else b1
+            body = ftext[b0:b1]
+            text = "%s\n{\n%s\n    %s\n}" % (spec["sig"], body, spec["tail"])
+            meta = dict(file=tk["file"], kind="block", name=blk["name"], line_start=rsx.line_of(src, fa + b0),
+                        line_end=rsx.line_of(src, fa + b1), sha256=hashlib.sha256(body.encode()).hexdigest(),
+                        rules=["R6 statement block of fn %s wrapped as `%s` with tail `%s`" % (blk["fn"], spec["sig"], spec["tail"])],
+                        stub=False, block_body=body)
+            out.append((tk, text, meta))
+            continue
         cands = []
         for (kind, name, a, b, kw, ctx) in items:
             if kind != tk["kind"]:
@@ -631,6 +691,9 @@ def transform_fn(u, fnkey, text, em, meta, is_trait_impl=False, nested=False, st
                                                                                     cnt))
         plain = plain.replace(rp["old"], rp["new"])
         rules.append("%s `%s` -> `%s`" % (rp["rule"], rp["old"], rp["new"]))
+    for mr in getattr(u, "macro_replaces", []):
+        if mr["fn"] == fnkey:
+            plain = _replace_macro(plain, mr["macro"], mr["new"], mr["rule"], rules)
     if not os.environ.get("VERIF_NO_R8"):
         plain = _continue_to_else(plain, rules)
     if fnkey in getattr(u, "mut_self", []):
@@ -874,6 +937,13 @@ def build(unit_path, out_dir, canary=False, repo=None):
                 em.emit("}")
             else:
                 raise BuildError("impl without method list: %s" % tk["name"])
+        elif tk["kind"] == "block":
+            fnkey = tk["name"]
+            stageA = transform_fn(u, fnkey, content, em, meta, add_pub=False)
+            extraction.append(dict(function=fnkey, file=meta["file"], line_start=meta["line_start"], line_end=meta["line_end"],
+                                   sha256=meta["sha256"], rules=sorted(set(meta["rules"])),
+                                   differing_tokens=selfcheck_tokens(meta["block_body"], stageA, fnkey, meta["rules"]), stub=False,
+                                   note="block extraction: differing_tokens counts the wrapper signature, braces and tail as well"))
         elif tk["kind"] == "fn":
             fnkey = tk["name"].replace("/", "::")
             stageA = transform_fn(u, fnkey, content, em, meta, stub=tk["stub"])
